@@ -215,8 +215,13 @@ pub fn run(ctx: &Ctx, out: &mut CaseOut) {
                     _ => None,
                 };
                 if let Some(why) = bad {
+                    // F19: the recursive solver answers Ambiguous when an implied bound has to be found through a
+                    // parameterised trait's where-clause (`FromEnv(Self: Sup) :- FromEnv(Self: Tr<?X>)` needs an
+                    // existential ?X and the search becomes a non-unique inductive cycle)
+                    let param_trait_with_bounds = prog.traits.iter().any(|t| t.nparams > 0 && !t.supers.is_empty());
+                    let sig = if solver_name(&choice) == "recursive" && !matches!(ans, MAnswer::Unique(..) | MAnswer::None) && param_trait_with_bounds { Some("recursive:implied-bound-existential-ambiguity") } else { None };
                     out.violation(
-                        None,
+                        sig,
                         format!("{} (goal #{} of the sequence) answered `{}` for `{}`: {}", solver_name(&choice), pos, rec.shown, gtext, why),
                         detail(&text, &gtext, &choice)
                             .set("answer", rec.shown.as_str())
